@@ -1,10 +1,9 @@
 SPECIFICATION SpecC17
 CONSTANTS
   TxSpace <- Small16
-  EthKeys <- NoKeys
+  EthKeys <- Eth3
   MaskByPosition = TRUE
   RawScriptFallback = TRUE
   MutClasses <- MutNone
 INVARIANTS SameSignersUpToCanon CanonAgree SoundUpToDupKeys
-ACTION_CONSTRAINT Edge
 CHECK_DEADLOCK FALSE
